@@ -52,18 +52,16 @@ def _oracle(shape, bits, bshape, el):
     non-zero entry of the element; labels = order of first appearance of the component in C scan order. Its agreement
     with the Lean specification is established on every small random case of the run (Infra error on disagreement)."""
     shape = tuple(shape)
-    A = np.array(bits, bool).reshape(shape)
+    A = np.asarray(bits, bool).reshape(shape)
     N = A.size
     idx = np.arange(N).reshape(shape)
-    parent = list(range(N))
+    parent = np.arange(N)
 
     def find(i):
-        r = i
-        while parent[r] != r:
-            r = parent[r]
-        while parent[i] != r:
-            parent[i], i = r, parent[i]
-        return r
+        while parent[i] != i:
+            parent[i] = parent[parent[i]]            # path halving
+            i = parent[i]
+        return i
     for j in np.ndindex(*bshape):
         if not el[int(np.ravel_multi_index(j, bshape))]:
             continue
@@ -77,15 +75,19 @@ def _oracle(shape, bits, bshape, el):
             ra, rb = find(a), find(b)
             if ra != rb:
                 parent[ra] = rb
+    while True:                                      # all roots at once (pointer jumping)
+        pp = parent[parent]
+        if np.array_equal(pp, parent):
+            break
+        parent = pp
     fg = np.nonzero(A.ravel())[0]
-    roots = np.array([find(int(i)) for i in fg], dtype=np.int64)
     lab = np.zeros(N, np.int64)
-    if fg.size:
-        u, first, inv = np.unique(roots, return_index=True, return_inverse=True)
-        order = np.argsort(np.argsort(first))            # rank of each root by first appearance
-        lab[fg] = order[inv] + 1
-        return lab.tolist(), int(u.size)
-    return lab.tolist(), 0
+    if not fg.size:
+        return lab, 0
+    u, first, inv = np.unique(parent[fg], return_index=True, return_inverse=True)
+    order = np.argsort(np.argsort(first))                # rank of each root by first appearance in scan order
+    lab[fg] = order[inv] + 1
+    return lab, int(u.size)
 
 
 def _big_image(c):
@@ -110,14 +112,14 @@ def _eval_big(c):
     import mahotas as mh
     A = _big_image(c).astype(c.get('dtype', 'bool'))
     Bc, bshape, el = _bc_arg(c)
-    want, nwant = _oracle(c['shape'], [int(x) for x in A.ravel() != 0], bshape, el)
+    want, nwant = _oracle(c['shape'], A != 0, bshape, el)
     lab, n = mh.label(A, Bc)
-    got = lab.ravel().tolist()
+    got = np.asarray(lab).ravel()
     f = []
-    if got != want or int(n) != nwant:
-        bad = [i for i, (a, b) in enumerate(zip(got, want)) if a != b][:5]
+    if got.shape != want.shape or not np.array_equal(got, want) or int(n) != nwant:
+        bad = np.nonzero(got != want)[0][:5].tolist() if got.shape == want.shape else []
         f.append(dict(kind='property', key='label:size-threshold', detail=dict(n=int(n), nspec=nwant, first_bad=bad,
-                                                                             got=[got[i] for i in bad], spec=[want[i] for i in bad])))
+                                                                             got=got[bad].tolist(), spec=want[bad].tolist())))
     return dict(findings=f, nontrivial=True, sig=('big', c['big'], tuple(c['shape']), str(c['bc'])),
                 tags=dict(dtype=c.get('dtype', 'bool'), ndim=2, layout='C', out=False, elem='int', size='threshold',
                           ncomp=min(int(n), 5)))
@@ -187,7 +189,7 @@ def _eval_small(cases):
         if len(bshape) == len(c['shape']) and A.size:
             # the Python oracle of the size-threshold stream must agree with the Lean specification on the small cases
             o = _oracle(c['shape'], bits, bshape, el)
-            if (o[0], o[1]) != (core.ints(drv['spec']), int(drv['nspec'])):
+            if (o[0].tolist(), o[1]) != (core.ints(drv['spec']), int(drv['nspec'])):
                 raise core.Infra('C03: the Python oracle of the size-threshold stream disagrees with the Lean spec on ' + str(c)[:300])
         if not np.array_equal(before, Al, equal_nan=False) and not (before != before).any():
             f.append(dict(kind='property', key='label:input-modified', detail={}))
@@ -328,7 +330,8 @@ def cases(rng, tier):
            dict(big='rows', shape=[3, 65537], bc=8, dtype='bool'),                 # rows longer than 2^16
            dict(big='checker', shape=[256, 257], bc=8, dtype='bool')]              # one component, 32 896 pixels, diagonal links only
     if tier == 'thorough':
-        big += [dict(big='checker', shape=[4097, 4097], bc=4, dtype='bool'), dict(big='solid', shape=[4097, 4096], bc=4, dtype='bool')]
+        big += [dict(big='checker', shape=[4097, 4097], bc=4, dtype='bool'),      # 2^24 + 8193 pixels, 8 392 705 components
+                dict(big='dominoes', shape=[1025, 4099], bc=4, dtype='bool')]      # 700 758 two-pixel components
         out += big
     elif tier == 'quick':
         out += [big[0]] + rng.sample(big[1:], 2)
